@@ -1,40 +1,137 @@
 import AGV.Util.Sexp
 import AGV.Util.Judge
 import AGV.Model.Ws
+import AGV.Model.WsFrame
 import AGV.Spec.WsProto
+import AGV.Spec.WsFrame
 import AGV.Gen.WsWire
 
 /-
-  C25 judge.  Case line:
+  C25 judge.  Two kinds of case lines.
+
+  Sessions (stream `main`):
 
     (ws PROTO KA STEP…)      PROTO = new | legacy, KA = keep-alive interval in ticks (0 = none)
-    STEP = ((MSG…) FUT STR TICK)
-      MSG  = (init v) | (start id v) | (stop id v) | (term v) | (ping v) | (pong v) | (bad k) | (eof)
-             (v, k select a spelling / a malformed text in the harness; the model ignores them)
+    STEP = ((FRAME…) FUT STR TICK)
+      FRAME = (t "text")     a frame whose bytes are the UTF-8 encoding of the text
+            | (b "hex")      a frame given byte by byte (for bytes that are not UTF-8)
+            | (eof)          the client's half of the socket ends
       FUT  = - | ok | err          completion offered to the pending init / ping callback
       STR  = - | (item inst val) | (fin inst)     the one operation stream ready in this poll
       TICK = 0 | 1                 a unit of time passes before the poll
 
-  Implementation output = the session trace
-    (tr EV…)   EV = (r init)|(r start id)|… messages taken from the socket, in order, and per poll
-                    one of (pending) (done) (connection_ack) (next id inst val) (data id inst val)
-                    (complete id) (pong) (connection_error REASON) (close CODE REASON)
+    Implementation output = the session trace
+      (tr EV…)   EV = (r K)  the K-th frame of the script (counted from 0 over all steps, `eof`
+                             included) was taken from the socket
+                    | (pending) (done) (connection_ack) (next "id" inst val) (data "id" inst val)
+                      (complete "id") (pong) (connection_error REASON) (close CODE REASON)
+
+    What a frame is, is decided HERE (Model.WsFrame.decode / the specification's reading), never by
+    the harness: the session model runs on the decoded messages, with the operation ids of the
+    script numbered in order of first appearance.
+
+  Frames (stream `decode`):
+
+    (dec FRAME)              output  (init P) (start "id" (req "query" OP VARS EXTS)) (stop "id") (term)
+                                     (ping P) (pong P) (bad)
+       P = - | JSON,  OP = - | "name",  VARS/EXTS/JSON = canonical document: null true false (i N) f
+       (s "…") (a …) (o ("key" v)…) with keys sorted and the last of repeated keys kept
 -/
 open AGV AGV.Sexp
 open AGV.Spec.WsProto AGV.Model.Ws
+open AGV.Spec.WsFrame (J WMsg Req Str)
 
 namespace AGV.Drive.C25
 
-def msgOf : Sexp → Option CMsg
-  | .list [.atom "init", _] => some .init
-  | .list [.atom "start", id, _] => (asNat? id).map .start
-  | .list [.atom "stop", id, _] => (asNat? id).map .stop
-  | .list [.atom "term", _] => some .term
-  | .list [.atom "ping", _] => some .ping
-  | .list [.atom "pong", _] => some .pong
-  | .list [.atom "bad", _] => some .bad
+-- ------------------------------------------------------------------ frames
+
+inductive Frame where
+  | text (cs : Str)
+  | bytes (bs : ByteArray)
+  | eof
+
+def hexNib (c : Char) : Option Nat := AGV.Spec.WsFrame.hexVal c
+
+def hexBytes : List Char → Option (List UInt8)
+  | [] => some []
+  | [_] => none
+  | a :: b :: r =>
+    match hexNib a, hexNib b, hexBytes r with
+    | some x, some y, some l => some (UInt8.ofNat (x * 16 + y) :: l)
+    | _, _, _ => none
+
+def frameOf : Sexp → Option Frame
+  | .list [.atom "t", .str cs] => some (.text cs)
+  | .list [.atom "b", .str hs] => (hexBytes hs).map (fun l => .bytes (ByteArray.mk l.toArray))
   | .list [.atom "eof"] => some .eof
   | _ => none
+
+/-- `exact = true`: the reader is the exact one whatever the extracted facts say (the reading
+    the specification requires when `d = {}`); `exact = false`: the model of the code as
+    extracted, with the defect toggles `d` -/
+def decodeFrame (exact : Bool) (d : AGV.Model.WsFrame.Defects) : Frame → Option WMsg
+  | .text cs => if exact then AGV.Model.WsFrame.decodeWith d.lenientTail d cs else AGV.Model.WsFrame.decode d cs
+  | .bytes bs =>
+    match String.fromUTF8? bs with
+    | some s => if exact then AGV.Model.WsFrame.decodeWith d.lenientTail d s.toList else AGV.Model.WsFrame.decode d s.toList
+    | none => none
+  | .eof => none
+
+-- ------------------------------------------------------------------ canonical documents
+
+def ltStr : Str → Str → Bool
+  | [], [] => false
+  | [], _ :: _ => true
+  | _ :: _, [] => false
+  | a :: r, b :: s => if a.toNat < b.toNat then true else if b.toNat < a.toNat then false else ltStr r s
+
+/-- insert into a list sorted by key, replacing an equal key (so the last occurrence wins) -/
+def insertKV {α : Type} (k : Str) (v : α) : List (Str × α) → List (Str × α)
+  | [] => [(k, v)]
+  | (k', v') :: r =>
+    if k = k' then (k, v) :: r
+    else if ltStr k k' then (k, v) :: (k', v') :: r
+    else (k', v') :: insertKV k v r
+
+def sortKV {α : Type} (kvs : List (Str × α)) : List (Str × α) :=
+  kvs.foldl (fun acc p => insertKV p.1 p.2 acc) []
+
+/-- how serde_json keeps a number token: an integer when it fits u64 / i64, a double otherwise -/
+def numSexp (tok : Str) : Sexp :=
+  if tok.any (fun c => c == '.' || c == 'e' || c == 'E') then .atom "f"
+  else
+    let neg := tok.head? == some '-'
+    let v := AGV.Spec.WsFrame.digitsVal (tok.filter AGV.Spec.WsFrame.isDigit)
+    if !neg then (if v ≤ 18446744073709551615 then .list [.atom "i", ofNat v] else .atom "f")
+    else if v = 0 then .atom "f"
+    else if v ≤ 9223372036854775808 then .list [.atom "i", ofInt (-(v : Int))]
+    else .atom "f"
+
+partial def canonJ : J → Sexp
+  | .null => .atom "null"
+  | .bool b => .atom (if b then "true" else "false")
+  | .num tok => numSexp tok
+  | .str s => .list [.atom "s", .str s]
+  | .arr xs => .list (.atom "a" :: xs.map canonJ)
+  | .obj kvs => .list (.atom "o" :: (sortKV kvs).map (fun p => .list [.str p.1, canonJ p.2]))
+
+def optJ : Option J → Sexp
+  | none => .atom "-"
+  | some v => canonJ v
+
+def msgSexpW : Option WMsg → Sexp
+  | none => .list [.atom "bad"]
+  | some (.init p) => .list [.atom "init", optJ p]
+  | some (.start id r) =>
+    .list [.atom "start", .str id,
+      .list [.atom "req", .str r.query, (match r.operationName with | none => .atom "-" | some o => .str o),
+             canonJ (.obj r.variables), canonJ (.obj r.extensions)]]
+  | some (.stop id) => .list [.atom "stop", .str id]
+  | some .term => .list [.atom "term"]
+  | some (.ping p) => .list [.atom "ping", optJ p]
+  | some (.pong p) => .list [.atom "pong", optJ p]
+
+-- ------------------------------------------------------------------ session cases
 
 def allSome {α} : List (Option α) → Option (List α)
   | [] => some []
@@ -55,10 +152,17 @@ def strOf : Sexp → Option StrEv
   | .list [.atom "fin", i] => (asNat? i).map .fin
   | _ => none
 
-def envOf : Sexp → Option Env
-  | .list [.list msgs, f, s, .atom t] =>
-    match allSome (msgs.map msgOf), futOf f, strOf s with
-    | some ms, some f, some s => some { arrive := ms, fut := f, str := s, tick := t == "1" }
+/-- a step before its frames are decoded -/
+structure RawStep where
+  frames : List Frame
+  fut : FutRes
+  str : StrEv
+  tick : Bool
+
+def stepOf : Sexp → Option RawStep
+  | .list [.list fs, f, s, .atom t] =>
+    match allSome (fs.map frameOf), futOf f, strOf s with
+    | some fs, some f, some s => some { frames := fs, fut := f, str := s, tick := t == "1" }
     | _, _, _ => none
   | _ => none
 
@@ -76,54 +180,56 @@ def reasonOf : String → Option Reason
   | "cb" => some .cb | "dupId" => some .dupId | "unauth" => some .unauth | "other" => some .other
   | _ => none
 
-def msgSexp : CMsg → Sexp
-  | .init => .list [.atom "r", .atom "init"]
-  | .start id => .list [.atom "r", .atom "start", ofNat id]
-  | .stop id => .list [.atom "r", .atom "stop", ofNat id]
-  | .term => .list [.atom "r", .atom "term"]
-  | .ping => .list [.atom "r", .atom "ping"]
-  | .pong => .list [.atom "r", .atom "pong"]
-  | .bad => .list [.atom "r", .atom "bad"]
-  | .eof => .list [.atom "r", .atom "eof"]
+/-- operation ids of a script, in order of first appearance -/
+def idsOf (ms : List (Option WMsg)) : List Str :=
+  ms.foldl (fun acc m => match m with
+    | some (.start id _) => if acc.contains id then acc else acc ++ [id]
+    | some (.stop id) => if acc.contains id then acc else acc ++ [id]
+    | _ => acc) []
+
+def idx (tbl : List Str) (s : Str) : Nat := tbl.idxOf s
+
+def cmsgOfFrame (exact : Bool) (DF : AGV.Model.WsFrame.Defects) (tbl : List Str) : Frame → CMsg
+  | .eof => .eof
+  | f => cmsgOf (idx tbl) (decodeFrame exact DF f)
+
+def idSexp (tbl : List Str) (n : Nat) : Sexp := .str (tbl.getD n [])
 
 /-- server messages are printed with the `type` strings extracted from the source -/
-def outSexp : Out → Sexp
+def outSexp (tbl : List Str) : Out → Sexp
   | .pending => .list [.atom "pending"]
   | .done => .list [.atom "done"]
   | .ack => .list [.atom Gen.WsWire.tyConnectionAck]
-  | .next id i v => .list [.atom Gen.WsWire.tyNext, ofNat id, ofNat i, ofNat v]
-  | .data id i v => .list [.atom Gen.WsWire.tyData, ofNat id, ofNat i, ofNat v]
-  | .complete id => .list [.atom Gen.WsWire.tyComplete, ofNat id]
+  | .next id i v => .list [.atom Gen.WsWire.tyNext, idSexp tbl id, ofNat i, ofNat v]
+  | .data id i v => .list [.atom Gen.WsWire.tyData, idSexp tbl id, ofNat i, ofNat v]
+  | .complete id => .list [.atom Gen.WsWire.tyComplete, idSexp tbl id]
   | .pong => .list [.atom Gen.WsWire.tyPong]
   | .connErr r => .list [.atom Gen.WsWire.tyConnectionError, .atom (reasonName r)]
   | .close c r => .list [.atom "close", ofNat c, .atom (reasonName r)]
 
-def evSexp : Ev → Sexp
-  | .recv m => msgSexp m
-  | .out o => outSexp o
+/-- frames are taken in the order they arrived: the k-th `recv` of a trace is frame k -/
+def renderEvs (tbl : List Str) : Nat → List Ev → List Sexp
+  | _, [] => []
+  | k, .recv _ :: r => .list [.atom "r", ofNat k] :: renderEvs tbl (k + 1) r
+  | k, .out o :: r => outSexp tbl o :: renderEvs tbl k r
 
-def renderTrace (tr : List Ev) : String := render (.list (.atom "tr" :: tr.map evSexp))
+def renderTrace (tbl : List Str) (tr : List Ev) : String :=
+  render (.list (.atom "tr" :: renderEvs tbl 0 tr))
 
-/-- reading the implementation's trace back uses the protocol documents' type strings -/
-def evOf : Sexp → Option Ev
-  | .list [.atom "r", .atom "init"] => some (.recv .init)
-  | .list [.atom "r", .atom "start", id] => (asNat? id).map (fun i => .recv (.start i))
-  | .list [.atom "r", .atom "stop", id] => (asNat? id).map (fun i => .recv (.stop i))
-  | .list [.atom "r", .atom "term"] => some (.recv .term)
-  | .list [.atom "r", .atom "ping"] => some (.recv .ping)
-  | .list [.atom "r", .atom "pong"] => some (.recv .pong)
-  | .list [.atom "r", .atom "bad"] => some (.recv .bad)
-  | .list [.atom "r", .atom "eof"] => some (.recv .eof)
+/-- reading the implementation's trace back uses the protocol documents' type strings; a frame
+    is what the SPECIFICATION says it is -/
+def evOf (tbl : List Str) (frames : Array CMsg) : Sexp → Option Ev
+  | .list [.atom "r", k] => (asNat? k).bind (fun k => frames[k]?.map .recv)
   | .list [.atom "pending"] => some (.out .pending)
   | .list [.atom "done"] => some (.out .done)
   | .list [.atom "connection_ack"] => some (.out .ack)
-  | .list [.atom "next", id, i, v] => match asNat? id, asNat? i, asNat? v with
-    | some id, some i, some v => some (.out (.next id i v))
-    | _, _, _ => none
-  | .list [.atom "data", id, i, v] => match asNat? id, asNat? i, asNat? v with
-    | some id, some i, some v => some (.out (.data id i v))
-    | _, _, _ => none
-  | .list [.atom "complete", id] => (asNat? id).map (fun i => .out (.complete i))
+  | .list [.atom "next", .str id, i, v] => match asNat? i, asNat? v with
+    | some i, some v => some (.out (.next (idx tbl id) i v))
+    | _, _ => none
+  | .list [.atom "data", .str id, i, v] => match asNat? i, asNat? v with
+    | some i, some v => some (.out (.data (idx tbl id) i v))
+    | _, _ => none
+  | .list [.atom "complete", .str id] => some (.out (.complete (idx tbl id)))
   | .list [.atom "pong"] => some (.out .pong)
   | .list [.atom "connection_error", .atom r] => (reasonOf r).map (fun r => .out (.connErr r))
   | .list [.atom "close", c, .atom r] => match asNat? c, reasonOf r with
@@ -131,50 +237,95 @@ def evOf : Sexp → Option Ev
     | _, _ => none
   | _ => none
 
-def traceOf (s : String) : Option (List Ev) :=
-  match parse s with
-  | some (.list (.atom "tr" :: evs)) => allSome (evs.map evOf)
-  | _ => none
+/-- ids mentioned by the implementation that no frame of the script carries -/
+def extraIds (tbl : List Str) : List Sexp → List Str
+  | [] => tbl
+  | .list (.atom _ :: .str id :: _) :: r => extraIds (if tbl.contains id then tbl else tbl ++ [id]) r
+  | _ :: r => extraIds tbl r
+
+-- ------------------------------------------------------------------ findings and toggles
 
 def idDup := "C25-dup-id-replaces"
 def idPre := "C25-subscribe-before-ack-1011"
 def idBad := "C25-invalid-message-1002"
+def idSeqF := "C25-array-frame-accepted"
+def idSeqP := "C25-array-payload-accepted"
+
+def allIds : List String := [idDup, idPre, idBad, idSeqF, idSeqP]
+
+def sessD (on : List String) : Defects :=
+  { dupIdReplaces := on.contains idDup, preAck1011 := on.contains idPre, invalid1002 := on.contains idBad }
+
+def frameD (on : List String) : AGV.Model.WsFrame.Defects :=
+  { seqFrame := on.contains idSeqF, seqPayload := on.contains idSeqP }
+
+/-- all sub-lists, the full list first, larger ones before smaller ones of the same prefix -/
+def subsets {α} : List α → List (List α)
+  | [] => [[]]
+  | a :: r => (subsets r).map (a :: ·) ++ subsets r
+
+def judgeSession (known : List String) (p : Proto) (ka : Nat) (steps : List RawStep) (impl : String) : JudgeOut :=
+  let on := allIds.filter known.contains
+  let frames := (steps.map (·.frames)).flatten
+  let mm (exact : Bool) (on : List String) : String :=
+    let DF := frameD on
+    let tbl := idsOf (frames.map (decodeFrame exact DF))
+    let h : List Env := steps.map (fun s =>
+      { arrive := s.frames.map (cmsgOfFrame exact DF tbl), fut := s.fut, str := s.str, tick := s.tick })
+    renderTrace tbl (run (sessD on) (State.init p ka) h)
+  let m := mm false
+  let modelK := m on
+  let spec := mm true []
+  -- the property on the implementation's own trace, frames read by the specification
+  let conf := match parse impl with
+    | some (.list (.atom "tr" :: evs)) =>
+      let tbl := extraIds (idsOf (frames.map (decodeFrame true {}))) evs
+      let fr := (frames.map (cmsgOfFrame true {} tbl)).toArray
+      match allSome (evs.map (evOf tbl fr)) with
+      | some tr => conforms p tr
+      | none => false
+    | _ => false
+  -- the implementation may have repaired any subset of the listed defects (the model has a
+  -- toggle for each, so the check passes in both states): the listed setting first
+  match (subsets on).find? (fun d => m d = impl) with
+  | some d =>
+    if conf then .ok
+    else if mm true d ≠ impl then
+      -- only a reader that is not exact (extracted from the source) explains this trace
+      .viol modelK spec
+    else
+      -- the implementation does what the model with these listed defects does, and that is not
+      -- a conforming session: attribute it to the first toggle that matters here
+      match d.find? (fun id => m (d.filter (· ≠ id)) ≠ impl) with
+      | some id => .known id modelK spec
+      | none => .viol modelK spec
+  | none => if conf then .tie modelK spec else .viol modelK spec
+
+def judgeDecode (known : List String) (f : Frame) (impl : String) : JudgeOut :=
+  let on := [idSeqF, idSeqP].filter known.contains
+  let mm (exact : Bool) (on : List String) : String := render (msgSexpW (decodeFrame exact (frameD on) f))
+  let modelK := mm false on
+  let spec := mm true []
+  if impl = spec then .ok
+  else
+    match (subsets on).find? (fun d => mm true d = impl) with
+    | some d =>
+      match d.find? (fun id => mm true (d.filter (· ≠ id)) ≠ impl) with
+      | some id => .known id modelK spec
+      | none => .viol modelK spec
+    | none => .viol modelK spec
 
 def judge (known : List String) (case impl : String) : JudgeOut :=
   match parse case with
   | some (.list (.atom "ws" :: p :: ka :: steps)) =>
-    match protoOf p, asNat? ka, allSome (steps.map envOf) with
-    | some p, some ka, some h =>
-      let D : Defects := { dupIdReplaces := known.contains idDup, preAck1011 := known.contains idPre,
-                           invalid1002 := known.contains idBad }
-      let m (D : Defects) := renderTrace (run D (State.init p ka) h)
-      let modelK := m D
-      let spec := m {}
-      let conf := match traceOf impl with
-        | some tr => conforms p tr
-        | none => false
-      -- the implementation may have repaired any subset of the listed defects (the model has a
-      -- toggle for each, so the check passes in both states): try the listed setting first, then
-      -- the settings with fewer toggles on
-      let subs : List Defects :=
-        [D, { D with dupIdReplaces := false }, { D with preAck1011 := false }, { D with invalid1002 := false },
-         { D with dupIdReplaces := false, preAck1011 := false }, { D with dupIdReplaces := false, invalid1002 := false },
-         { D with preAck1011 := false, invalid1002 := false }, {}]
-      match subs.find? (fun d => m d = impl) with
-      | some d =>
-        if conf then .ok
-        else
-          -- the implementation does what the model with these listed defects does, and that is
-          -- not a conforming session: attribute it to the first toggle that matters here
-          match [(idDup, d.dupIdReplaces, m { d with dupIdReplaces := false }),
-                 (idPre, d.preAck1011, m { d with preAck1011 := false }),
-                 (idBad, d.invalid1002, m { d with invalid1002 := false })].find?
-                  (fun q => q.2.1 && q.2.2 ≠ impl) with
-          | some (id, _, _) => .known id modelK spec
-          | none => .viol modelK spec
-      | none =>
-        if conf then .tie modelK spec else .viol modelK spec
+    match protoOf p, asNat? ka, allSome (steps.map stepOf) with
+    | some p, some ka, some steps => judgeSession known p ka steps impl
     | _, _, _ => .viol "bad-case" "bad-case"
+  | some (.list [.atom "dec", f]) =>
+    match frameOf f with
+    | some .eof => .viol "bad-case" "bad-case"
+    | some f => judgeDecode known f impl
+    | none => .viol "bad-case" "bad-case"
   | _ => .viol "bad-case" "bad-case"
 
 end AGV.Drive.C25
